@@ -1174,7 +1174,7 @@ def search_univariate(ctx, deep, found):
     tmp = scratch_dir(ctx, 'search-uni')
     checked = 0
     try:
-        specs = list(uni_specs(ctx, 40 if deep else 4, deep=deep))
+        specs = list(uni_specs(ctx, 100 if deep else 4, deep=deep))
         # the contrived edge: non-constant data whose standard deviation underflows to 0
         C = uni_classes()
         specs.append((('GaussianUnivariate', '[]', 'underflow', 3), (lambda: C['GaussianUnivariate']()), 'GaussianUnivariate', {},
@@ -1240,7 +1240,7 @@ def search_bivariate(ctx, deep, found):
     tmp = scratch_dir(ctx, 'search-biv')
     checked = 0
     try:
-        for key, m, how in biv_specs(ctx, 6 if deep else 1, deep=deep):
+        for key, m, how in biv_specs(ctx, 10 if deep else 1, deep=deep):
             d = m.to_dict()
             rs = ctx.nprng('search-biv-probe', *map(str, key))
             X = np.vstack([rs.uniform(0, 1, (40 if deep else 8, 2)), [[0.5, 0.5], [0.0, 0.4], [1.0, 1.0], [1e-9, 1 - 1e-9]]])
@@ -1270,7 +1270,7 @@ def search_gaussian(ctx, deep, found, tab_like):
     tmp = scratch_dir(ctx, 'search-gauss')
     checked = 0
     try:
-        for key, g, data, df in gauss_specs(ctx, 10 if deep else 2, deep=deep):
+        for key, g, data, df in gauss_specs(ctx, 20 if deep else 2, deep=deep):
             if outcome(lambda: g.fit(data))[0] == 'err':
                 continue
             d = g.to_dict()
@@ -1312,7 +1312,7 @@ def search_vine(ctx, deep, found):
     tmp = scratch_dir(ctx, 'search-vine')
     checked = 0
     try:
-        for key, v, df, trunc in vine_specs(ctx, 3 if deep else 1, deep=deep):
+        for key, v, df, trunc in vine_specs(ctx, 5 if deep else 1, deep=deep):
             if outcome(lambda: v.fit(df, truncated=trunc))[0] == 'err':
                 continue
             d = v.to_dict()
